@@ -148,6 +148,11 @@ class SubsetGroup(HubListener):
 
     def _add_data(self, data):
         # add a new data object to group
+        # (unless it already has a subset in this group, which is the case if
+        # the group was created after the data was added to the collection
+        # but before the message about this was delivered)
+        if any(s.data is data for s in self.subsets):
+            return
         s = GroupedSubset(data, self)
         data.add_subset(s)
         self.subsets.append(s)
